@@ -52,4 +52,7 @@ func init() {
 	setProp("C02", "DESIGN.md §4 C02",
 		"Decides: the DE-9IM pattern sets of the nine named predicates (as matched sets over all 4^9 matrices, per dimension case), the matcher's acceptance table, the matrix index/closed-form/transposition of Relate's empty-operand branch, the face/half-edge/vertex location tables and the mod-2 boundary flag machine of lineal input.",
 		"that the overlay labels (inSet) from which the matrix is read are geometrically right; the fill order of the matrix extraction (not yet included).")
+	setProp("C14", "DESIGN.md §4 C14",
+		"Decides: the shell/hole sign convention of Polygon.Area for both the signed and unsigned variants and the forwarding of the transform; options are forwarded to every nested Area call; the centroid formula selector never applies Dimension() to a possibly-empty or nested-collection member.",
+		"numeric accuracy of the measures, centroid weights, additivity and invariances at value level.")
 }
